@@ -16,6 +16,15 @@ for d in sorted(glob.glob(f'{V}/seeded/*/meta.json')):
 seed_rows = "\n".join(f"| {sid} | {m['property']} | {cell(m.get('summary', '(see notes.md)'), 160)} | {cell(m.get('needs', ''), 170)} | {cell(m.get('detected_by', 'PENDING: missed by the committed check; strengthening in progress'), 300)} |" for sid, m in seeds)
 def first_time(r): return sum(1 for sid, m in seeds if sid.endswith(f'-{r}') and m.get('detected_by', '').startswith('caught'))
 def total(r): return sum(1 for sid, m in seeds if sid.endswith(f'-{r}'))
+import collections
+_rv = open(f'{V}/notes/revfix_selftest.log').read().splitlines() if os.path.exists(f'{V}/notes/revfix_selftest.log') else []
+_ok = [l for l in _rv if re.search(r'violations_reported=[1-9]', l)]
+_zero = [l.split()[1] for l in _rv if 'violations_reported=0' in l]
+_na = [l.split()[1] for l in _rv if 'does not apply' in l]
+revfix_summary = (f"{len(_ok)} of {len(_ok) + len(_zero) + len(_na)} re-introduced defects are reported again ("
+                  + ", ".join(f"{l.split()[0]} {l.split()[1]} -> {re.search(r'violations=([0-9]+)', l).group(1)}" for l in _ok) + "). "
+                  + f"{len(_na)} fix commits ({', '.join(_na)}) cannot be reverse-applied on HEAD any more because a later fix rewrote the same lines (they were reported when first reverted, see the git history of this file). "
+                  + f"The C05 repairs {', '.join(_zero)} are layered (root cause in Clipper, two robustness repairs in link_holes, XOR as union minus intersection): reverting ONE of them is masked by the others in the quick tier; reverting all four together is reported (3112 violations), and the tree before them produced 1.85 M violations in the thorough tier.")
 rounds = sorted({int(sid.split('-')[1]) for sid, m in seeds})
 rounds_line = ", ".join(f"round {r}: {first_time(r)}/{total(r)}" for r in rounds)
 pending = sum(1 for sid, m in seeds if 'detected_by' not in m)
@@ -141,14 +150,9 @@ rest.  A bound that hits the soft deadline is reported `complete=false` / `exhau
 
 Three independent sources; none of these changes is ever committed to /repo.
 
-**(a) Re-introducing repaired defects** (`tools/revert_fix_selftest.sh`: reverse-apply the fix
-commit in a scratch worktree of HEAD, run the property's quick check).  Reported again, e.g.
-`C20 444c2b4 reverted -> violations=3`, `C18 ff9c696 -> 3`, `C18 2564311 -> 48`,
-`C09 1b150e6 -> 6967`, `C09 d365819 -> 8320`, `C06 6ed30e3 -> 12800`,
-`C03 7c96918 / 1d7adff / 1cfc8e2 -> 3 / 3 / 2`, `C10 7d0d044 -> 105`, `C04 42c3d85 / b9f5df2 /
-9a9dca5 / 6ea7bd2 / dd17bd1 -> 12 / 8 / 16 / 3 / 8`, `C11 848d6f9 / 23b91b2 -> 1110 / 6`,
-`C19 7875333 / 424981c -> 48 / 24`, `C16 51e4147 -> 954`, `C15 ab39017 / 06fc5e5 / b6929ce ->
-14452 / 64 / 52`.
+**(a) Re-introducing repaired defects** (`tools/revert_fix_selftest.sh`: reverse-apply each fix
+commit in a scratch worktree of HEAD, run the property's quick check; last full run on the final harnesses,
+log in `notes/revfix_selftest.log`): {revfix_summary}
 
 **(b) Mutants written by the harness authors** (scratch copy of the tree via `VERIF_REPO`, quick
 tier).  Caught / tried: C01 7/8 (an XY split that loses only the closing point is invisible to a
